@@ -170,7 +170,7 @@ def isSync (hooks : Bool) : Act → Bool
 def syncNow (hooks : Bool) (st : St) (tid : Nat) (a : Act) : Bool :=
   match a with
   | .inc _ src => (st.slots src).isBlk
-  | .incE _ c _ => (st.slots (embSlot c)).isBlk
+  | .incE _ c k _ => (st.slots (embSlotK c k)).isBlk
   | .dec t => (st.slots t).isBlk
   | .readRef t _ => hooks && (st.slots t).isBlk
   | .write _ => hooks && isWriting st tid
@@ -184,7 +184,7 @@ def traceTok (before after : St) (tid : Nat) (a : Act) : String :=
     | _ => "-"
   match a with
   | .inc _ src => s!"{tid}.inc.{refOf after src}"
-  | .incE _ c _ => s!"{tid}.inc.{refOf after (embSlot c)}"
+  | .incE _ c k _ => s!"{tid}.inc.{refOf after (embSlotK c k)}"
   | .dec t => s!"{tid}.dec.{refOf after t}"
   | .readRef t _ => s!"{tid}.ref.{refOf before t}"
   | .write _ => s!"{tid}.wr"
@@ -229,7 +229,7 @@ partial def runLocal (d : DSt) (tid : Nat) : DSt :=
       (match d.st.pc tid with
         | .freeing c =>
           if (d.st.slots (embSlot c)).isBlk && d.st.owner (embSlot c) != tid then
-            [.takeF (tmpU tid) c, .free, .dec (tmpU tid), .free] ++ r
+            [.takeF (tmpU tid) c 0, .free, .dec (tmpU tid), .free] ++ r
           else t.acts
         | _ => t.acts)
     | _ => t.acts
